@@ -116,7 +116,7 @@ type hookExpect struct {
 func expectedToCalls(m *spec.Msg, sv reflect.Value, o types.Object, ot types.ObjectType, path string, out *[]hookExpect) {
 	for _, a := range m.Attrs {
 		p := joinPath(path, a.Name)
-		f, fs := goField(sv, a)
+		f, fs := goFieldZeroEmbed(sv, a) // a nil nullable embedded parent is written as a zero message
 		cur, has := o.Attrs[a.Name]
 		if a.Kind == spec.Custom {
 			if fs == fsOK {
